@@ -249,8 +249,13 @@ def cmd_checks(a):
     if a.limit:
         ms = ms[:a.limit]
     print("to run:", len(ms), flush=True)
+    if ms:
+        covering(ms[0], a.covdir)          # load the coverage maps before the threads start
+    from concurrent.futures import as_completed
     with open(a.out, "a") as f, ThreadPoolExecutor(a.jobs) as ex:
-        for i, r in enumerate(ex.map(checks_one, [(m, a.nproc, a.tier, a.covdir) for m in ms])):
+        futs = [ex.submit(checks_one, (m, a.nproc, a.tier, a.covdir)) for m in ms]
+        for i, fu in enumerate(as_completed(futs)):
+            r = fu.result()
             f.write(json.dumps(r) + "\n")
             f.flush()
             print(i, r["id"], r["file"], r["line"], r["op"], repr(r["old"]), "->", repr(r["new"]), "KILLED " + r["killed_by"] if r["killed_by"] else "SURVIVED",
